@@ -8,7 +8,7 @@
 use vstd::prelude::*;
 //@prelude fmt_macro
 verus! {
-//@prelude std_specs r32 attrmap
+//@prelude std_specs r32 attrmap pending
 
 pub enum SvgdxError { InvalidData(String), ReferenceError(ElRef), ParseError(String), DepthLimitExceeded(u32, u32), Other }
 pub type Result<T> = core::result::Result<T, SvgdxError>;
@@ -53,6 +53,13 @@ impl BoundingBox {
     #[verifier::external_body]
     pub fn intersect(&self, other: &BoundingBox) -> (r: Option<BoundingBox>) ensures r == BoundingBox::isect(*self, *other) { unimplemented!() }
 }
+/// one of the first n names is an attribute of the element
+pub open spec fn has_any(m: Map<Seq<char>, Seq<char>>, ks: Seq<&str>, n: int) -> bool decreases n {
+    if n <= 0 { false } else { has_any(m, ks, n - 1) || m.dom().contains(ks[n - 1]@) }
+}
+/// R-any: `names.iter().any(|a| self.has_attr(a))`
+#[verifier::external_body]
+pub fn any_attr(e: &SvgElement, names: &[&str]) -> (r: bool) ensures r == has_any(e.attrs@, names@, names@.len() as int) { unimplemented!() }
 impl SvgElement {
 //@item src/element.rs :: impl SvgElement :: fn get_attr
 //@ replace[R-optmap] <<<self.attrs.get(key).map(|x| x.to_owned())>>> => <<<match self.attrs.get(key) { Some(x) => Some(x.clone()), None => None }>>>
@@ -63,9 +70,17 @@ impl SvgElement {
 //@ ensures
 //@ - r == self.attrs@.dom().contains(key@)
 //@end
+//@item src/element.rs :: impl SvgElement :: fn has_foreign_position
+//@ strlit "rect" "use" "image" "svg" "foreignObject" "circle" "ellipse" "line" "cx" "cy" "x1" "y1" "x2" "y2" "x" "y"
+//@ replace[R-any] <<<foreign.iter().any(|a| self.has_attr(a))>>> => <<<any_attr(self, foreign)>>>
+//@ body-start
+//@ | proof { reveal_with_fuel(has_any, 8); }
+//@ ensures
+//@ - r == foreign_pos(self.name@, self.attrs@)     @@C10.pending.foreign_spec
+//@end
 //@item src/element.rs :: impl SvgElement :: fn has_pending_geometry
 //@ ensures
-//@ - r == pending(self.attrs@)     @@C10.pending.spec
+//@ - r == unresolved(self.name@, self.attrs@)     @@C10.pending.spec
 //@end
     #[verifier::external_body]
     pub fn get_target_element(&self, ctx: &TransformerContext) -> (r: Result<SvgElement>)
@@ -75,12 +90,6 @@ impl SvgElement {
         ensures (match own_bbox(*self) { Some(b) => r == Ok::<Option<BoundingBox>, SvgdxError>(b), None => r is Err }) { unimplemented!() }
 }
 
-/// a shorthand / relative / containment attribute still awaits resolution (same list as SvgElement::has_pending_geometry, proved in U-bbox)
-pub open spec fn pending(m: Map<Seq<char>, Seq<char>>) -> bool {
-    m.dom().contains("xy"@) || m.dom().contains("cxy"@) || m.dom().contains("xy1"@) || m.dom().contains("xy2"@) || m.dom().contains("xy-loc"@)
-    || m.dom().contains("dxy"@) || m.dom().contains("wh"@) || m.dom().contains("dwh"@) || m.dom().contains("dw"@) || m.dom().contains("dh"@)
-    || m.dom().contains("surround"@) || m.dom().contains("inside"@)
-}
 pub open spec fn off(m: Map<Seq<char>, Seq<char>>, k: Seq<char>) -> Option<real> { if m.dom().contains(k) { strp_spec(m[k]) } else { Some(0real) } }
 
 impl TransformerContext {
@@ -90,7 +99,7 @@ impl TransformerContext {
 
 //@item src/context.rs :: impl ElementMap for TransformerContext :: fn get_element_bbox
 //@ ensures
-//@ - r is Ok && (el.name@ == "use"@ || el.name@ == "reuse"@) && !pending(el.attrs@) && !el.attrs@.dom().contains("clip-path"@)
+//@ - r is Ok && (el.name@ == "use"@ || el.name@ == "reuse"@) && !unresolved(el.name@, el.attrs@) && !el.attrs@.dom().contains("clip-path"@)
 //@     && target_of(*self, *el) is Some && own_bbox(target_of(*self, *el)->Some_0) is Some && own_bbox(target_of(*self, *el)->Some_0)->Some_0 is Some ==> ({
 //@       let b0 = own_bbox(target_of(*self, *el)->Some_0)->Some_0->Some_0;
 //@       let dx = off(el.attrs@, "x"@)->Some_0; let dy = off(el.attrs@, "y"@)->Some_0;
@@ -106,14 +115,14 @@ impl TransformerContext {
 //@ replace?[R-refmut] <<<if let Some(ref mut bbox) = &mut el_bbox {\n                    el_bbox = Some(bbox.translated(>>> => <<<if let Some(bbox) = el_bbox {\n                    el_bbox = Some(bbox.translated(>>>
 //@ replace[R-refmut] <<<if let (Some(clip_path), Some(ref mut bbox)) = (el.get_attr("clip-path"), &mut el_bbox) {>>> => <<<if let (Some(clip_path), Some(bbox)) = (el.get_attr("clip-path"), el_bbox) {>>>
 //@ ensures
-//@ - r is Ok && (el.name@ == "use"@ || el.name@ == "reuse"@) && !pending(el.attrs@) && !el.attrs@.dom().contains("clip-path"@)
+//@ - r is Ok && (el.name@ == "use"@ || el.name@ == "reuse"@) && !unresolved(el.name@, el.attrs@) && !el.attrs@.dom().contains("clip-path"@)
 //@     && target_of(*self, *el) is Some && own_bbox(target_of(*self, *el)->Some_0) is Some && own_bbox(target_of(*self, *el)->Some_0)->Some_0 is Some ==> ({
 //@       let b0 = own_bbox(target_of(*self, *el)->Some_0)->Some_0->Some_0;
 //@       let dx = off(el.attrs@, "x"@)->Some_0; let dy = off(el.attrs@, "y"@)->Some_0;
 //@       r->Ok_0 is Some && bx(r->Ok_0->Some_0) == (val(b0.x1) + dx, val(b0.y1) + dy, val(b0.x2) + dx, val(b0.y2) + dy) })     @@C08.use.translated
-//@ - (el.name@ == "use"@ || el.name@ == "reuse"@) && !pending(el.attrs@) && target_of(*self, *el) is Some && own_bbox(target_of(*self, *el)->Some_0) is Some && own_bbox(target_of(*self, *el)->Some_0)->Some_0 is Some
+//@ - (el.name@ == "use"@ || el.name@ == "reuse"@) && !unresolved(el.name@, el.attrs@) && target_of(*self, *el) is Some && own_bbox(target_of(*self, *el)->Some_0) is Some && own_bbox(target_of(*self, *el)->Some_0)->Some_0 is Some
 //@     && ((el.attrs@.dom().contains("x"@) && strp_spec(el.attrs@["x"@]) is None) || (el.attrs@.dom().contains("y"@) && strp_spec(el.attrs@["y"@]) is None)) ==> r is Err     @@C10.use.unresolved_offset_is_error @@C08.use.unresolved_offset_is_error
-//@ - r is Ok && (el.name@ == "use"@ || el.name@ == "reuse"@) && pending(el.attrs@) ==> r->Ok_0 is None     @@C10.pending.use_instance
+//@ - r is Ok && (el.name@ == "use"@ || el.name@ == "reuse"@) && unresolved(el.name@, el.attrs@) ==> r->Ok_0 is None     @@C10.pending.use_instance
 //@ - r is Ok && !(el.name@ == "use"@ || el.name@ == "reuse"@) && !el.attrs@.dom().contains("clip-path"@)
 //@     && target_of(*self, *el) is Some ==> own_bbox(target_of(*self, *el)->Some_0) == Some(r->Ok_0)     @@C08.plain.own_box
 //@ decreases
